@@ -616,8 +616,10 @@ def _sample_dist_output_conditioned_on_postselection(
             np.abs(interferometer[postselect_modes, input_mode]) ** 2
         )
 
-        loss_probability = (
-            1.0 - non_postselect_probabilities.sum() - postselect_probabilities.sum()
+        # NOTE: Rounding errors may make this slightly negative for lossless circuits.
+        loss_probability = max(
+            1.0 - non_postselect_probabilities.sum() - postselect_probabilities.sum(),
+            0.0,
         )
 
         non_postselect_weights = non_postselect_probabilities * future_probability
@@ -699,6 +701,8 @@ def generate_lossy_and_partially_distinguishable_samples(
         connector=connector,
     )
 
+    # NOTE: Rounding errors may make vanishing probabilities slightly negative.
+    probabilities = connector.np.maximum(probabilities, 0.0)
     probabilities /= connector.np.sum(probabilities)
 
     sample_indices = config.rng.choice(
